@@ -8,7 +8,7 @@ VERIF = os.path.dirname(HERE)
 
 COMMON_NOTE = ("Trusted base: Lean 4.33 kernel (axioms audited on every run to be within propext / Classical.choice / Quot.sound; no sorry, "
                "native_decide, bv_decide, user axioms); the hand-written Lean model is tied to /repo's working tree on every run by (a) finite "
-               "tables regenerated from the code with kernel-checked agreement theorems where listed, (a') for the pure functions named in the level text, the Python source dumped by harness/py2lean.py and proved equal to the model through the interpreter lean/Isotp/Py/Ast.lean (trusted: the dumper and that interpreter's semantics of the Python subset), and (b) a differential correspondence "
+               "tables regenerated from the code with kernel-checked agreement theorems where listed, (a') for the functions named in the level text (pure helpers, validators, constructors, the receive / transmit state machines, process(), the threaded lifecycle), the Python source dumped by harness/py2lean.py on every run and proved equal to the model through the interpreters lean/Isotp/Py/Ast.lean / Exec2.lean (trusted: the dumper, those interpreters' semantics of the Python subset, the Meths records of primitives named in each leaf; a leaf that no longer checks is a broken obligation), and (b) a differential correspondence "
                "check model-vs-implementation on generated scenarios under an exact virtual clock (differential testing, not proof); the judge "
                "of the property is evaluated on every implementation trace. CPython semantics, zero-time computation and float->ns "
                "conversions of configuration values are modelled, not verified.")
@@ -74,7 +74,7 @@ def main():
         what, partial = TEXT[pid]
         py = [a.split('.')[-1] for a in r.get('agree', []) if '.PyAgree.' in a]
         if py:
-            what += (' Source-agreement leaves (DESIGN 11.7): the Python source of the pure functions this property rests on is dumped from the '
+            what += (' Source-agreement leaves (DESIGN 11.7): the Python source of the functions this property rests on is dumped from the '
                      'working tree on every run and proved, for all inputs, to compute what the model computes (%s).' % ', '.join(py))
         checks.append({
             'property_id': pid,
@@ -90,7 +90,7 @@ def main():
             },
             'level_note': COMMON_NOTE,
             'technique': 'Lean 4 theorems (invariants/induction) about a hand-written executable model + regenerated-table agreement (decide +kernel) + '
-                         + ('source translator (Python ast -> deep embedding) with agreement theorems interpreter(source) = model for the pure functions + ' if py else '')
+                         + ('source translator (Python ast -> deep embedding) with agreement theorems interpreter(source) = model for the translated functions + ' if py else '')
                          + 'differential correspondence model-vs-code; judge on implementation traces for the failing-input search',
         })
     man = {
